@@ -12,6 +12,7 @@ CONSTANTS
   MaxStall = 1
   RotateFollows = TRUE
   WholeBatches = TRUE
+  PollRereads = TRUE
 INVARIANTS AppliedIsPrefix NoSplitBatch ExpectedFollowsApplied ReportedLeApplied AckLeApplied
 PROPERTIES Converges StalledIsDropped
 CHECK_DEADLOCK FALSE
